@@ -124,7 +124,7 @@ def run(ctx, rep):
     # "does not panic": every explicit failure construct mono-reachable from the two wrappers — including the error
     # conversions that `?` calls — must be a row of the reviewed table (same table and obligations as C01/A6, C05/X1)
     from . import site
-    site.check_sites(F, rep, "Z4", [PC + "decompress_zstd", PC + "compress_zstd"], 40)
+    site.check_sites(F, rep, "Z4", [PC + "decompress_zstd", PC + "compress_zstd"], 20)
 
 
 def _roots(body, opnd):
